@@ -133,7 +133,7 @@ var treeDirs = []string{"", "a", "ab", "a/b", "b"}
 
 type src struct {
 	Dir string `json:"dir"`
-	Ver int    `json:"ver"`
+	Ver *int   `json:"ver"` // nil: a root without rego-version / a .manifest without rego_version
 }
 
 func treeCase(out *hutil.Out, id int, manifests []src, project *int, roots []src, tmp string) {
@@ -152,8 +152,11 @@ func treeCase(out *hutil.Out, id int, manifests []src, project *int, roots []src
 		}
 	}
 	for _, m := range manifests {
-		must(os.WriteFile(filepath.Join(root, m.Dir, ".manifest"),
-			[]byte(fmt.Sprintf(`{"rego_version": %d}`, m.Ver)), 0o644))
+		body := `{"revision": "x"}`
+		if m.Ver != nil {
+			body = fmt.Sprintf(`{"rego_version": %d}`, *m.Ver)
+		}
+		must(os.WriteFile(filepath.Join(root, m.Dir, ".manifest"), []byte(body), 0o644))
 	}
 	conf := config.Config{}
 	if project != nil || len(roots) > 0 {
@@ -161,8 +164,7 @@ func treeCase(out *hutil.Out, id int, manifests []src, project *int, roots []src
 		if len(roots) > 0 {
 			rs := []config.Root{}
 			for _, r := range roots {
-				v := r.Ver
-				rs = append(rs, config.Root{Path: r.Dir, RegoVersion: &v})
+				rs = append(rs, config.Root{Path: r.Dir, RegoVersion: r.Ver})
 			}
 			conf.Project.Roots = &rs
 		}
@@ -220,6 +222,19 @@ func treeCase(out *hutil.Out, id int, manifests []src, project *int, roots []src
 		"roots": roots, "vmap": kvs, "obs": observations})
 }
 
+// optVer: version 0, 1 or (one time in four) none configured
+func optVer(rng *hutil.Rng) *int {
+	switch rng.Below(8) {
+	case 0, 1:
+		return nil
+	case 2, 3, 4:
+		z := 0
+		return &z
+	}
+	o := 1
+	return &o
+}
+
 func must(err error) {
 	if err != nil {
 		panic(err)
@@ -251,12 +266,16 @@ func main() {
 		p *int
 		r []src
 	}{
-		{nil, nil, []src{{"a", 0}}},
-		{nil, &zero, []src{{"a", 1}, {"a/b", 0}}},
-		{[]src{{"a", 0}}, nil, []src{{"a", 1}}},
-		{[]src{{"", 0}}, &one, nil},
-		{[]src{{"a", 0}, {"ab", 1}}, &one, []src{{"b", 0}}},
-		{[]src{{"a/b", 0}}, &one, []src{{"a", 1}}},
+		{nil, nil, []src{{"a", &zero}}},
+		{nil, &zero, []src{{"a", &one}, {"a/b", &zero}}},
+		{[]src{{"a", &zero}}, nil, []src{{"a", &one}}},
+		{[]src{{"", &zero}}, &one, nil},
+		{[]src{{"a", &zero}, {"ab", &one}}, &one, []src{{"b", &zero}}},
+		{[]src{{"a/b", &zero}}, &one, []src{{"a", &one}}},
+		// roots / manifests that configure no version must not mask an outer version
+		{nil, &zero, []src{{"a", nil}}},
+		{[]src{{"a", &zero}}, nil, []src{{"a", nil}}},
+		{[]src{{"a", nil}}, &zero, []src{{"a/b", nil}, {"b", &one}}},
 	}
 	for _, c := range fixed {
 		treeCase(out, id, c.m, c.p, c.r, tmp)
@@ -266,14 +285,14 @@ func main() {
 		var ms, rs []src
 		for _, d := range treeDirs {
 			if rng.Below(4) == 0 {
-				ms = append(ms, src{d, rng.Below(2)})
+				ms = append(ms, src{d, optVer(rng)})
 			}
 			if d != "" && rng.Below(3) == 0 {
 				dd := d
 				if rng.Below(6) == 0 {
 					dd = strings.TrimSuffix(d, "/") + "/"
 				}
-				rs = append(rs, src{dd, rng.Below(2)})
+				rs = append(rs, src{dd, optVer(rng)})
 			}
 		}
 		var p *int
